@@ -529,3 +529,129 @@ func plDescribe(r *plRun) string {
 	}
 	return s + fmt.Sprintf("computed=%v\n", r.computed)
 }
+
+// ------------------------------------------------------------------------------------------------
+// C04
+
+func plDropScenarios(thorough bool) ([]*plScenario, map[string]map[string]bool) {
+	var out []*plScenario
+	synth := map[string]map[string]bool{}
+	maxShards := 2
+	if thorough {
+		maxShards = 3
+	}
+	for n := 1; n <= maxShards; n++ {
+		n := n
+		// every shard: data, then the drop message (same timestamp on every shard), shard 0 with an extra data pack before it
+		sc := plShardedScenario(fmt.Sprintf("drop:collection/%d-shards", n), n, func(i int) []plPack {
+			s := []plPack{pkIns(int64(1000 + i))}
+			if i == 0 {
+				s = append(s, pkDel(1010))
+			}
+			return append(s, pkDropColl(1050))
+		})
+		if n == 3 {
+			sc.HeavyBound = 1
+		}
+		out = append(out, sc)
+	}
+	// partition drop on a 2-shard collection, partition registration racing the streams
+	{
+		sc := plShardedScenario("drop:partition/2-shards", 2, func(i int) []plPack {
+			if i == 0 {
+				return []plPack{pkInsPart(1000), pkDropPart(1050)}
+			}
+			return []plPack{pkDropPart(1050), pkIns(1060)}
+		})
+		withPartition(sc.Colls[0], true)
+		sc.Drivers = append(sc.Drivers, plDriver{Kind: "addpart", Coll: 0, Part: "p1", PartState: pb.PartitionState_PartitionCreated})
+		sc.HeavyBound = 1
+		out = append(out, sc)
+	}
+	// the same with registration itself a scheduling point: only one of two handlers may have recorded the collection yet
+	{
+		sc := plShardedScenario("drop:partition/register-race", 2, func(i int) []plPack {
+			return []plPack{pkDropPart(1050)}
+		})
+		withPartition(sc.Colls[0], true)
+		sc.Drivers = append(sc.Drivers, plDriver{Kind: "addpart", Coll: 0, Part: "p1", PartState: pb.PartitionState_PartitionCreated})
+		sc.ParkRegister = true
+		sc.HeavyBound = 1
+		out = append(out, sc)
+	}
+	// stopping a collection never produces a drop request
+	{
+		sc := plShardedScenario("drop:stop-no-drop", 2, func(i int) []plPack { return []plPack{pkIns(int64(1000 + i)), pkDel(int64(1010 + i))} })
+		sc.Drivers = append(sc.Drivers, plDriver{Kind: "stop", Coll: 0})
+		out = append(out, sc)
+	}
+	// stop racing a drop that is half way through the barrier
+	{
+		sc := plShardedScenario("drop:stop-vs-drop", 2, func(i int) []plPack { return []plPack{pkIns(int64(1000 + i)), pkDropColl(1050)} })
+		sc.Drivers = append(sc.Drivers, plDriver{Kind: "stop", Coll: 0})
+		sc.HeavyBound = 1
+		out = append(out, sc)
+	}
+	// dropped upstream while CDC was down, still present downstream: one synthetic drop after restart
+	{
+		c := mkColl(101, "c1", []string{"src-dml_0", "src-dml_1"}, []string{"tgt-dml_0", "tgt-dml_1"})
+		c.Dropped, c.SeekMs = true, 990
+		out = append(out, &plScenario{Name: "drop:restart-collection", SrcN: 2, TgtN: 2, Colls: []*plColl{c}, Drivers: []plDriver{{Kind: "start", Coll: 0}}})
+		synth["drop:restart-collection"] = map[string]bool{"coll/default/c1": true}
+	}
+	{
+		c := mkColl(101, "c1", []string{"src-dml_0", "src-dml_1"}, []string{"tgt-dml_0", "tgt-dml_1"})
+		c.SeekMs = 990
+		withPartition(c, true)
+		for i, sh := range c.Shards {
+			sh.Script = []plPack{pkIns(int64(1000 + i))}
+		}
+		out = append(out, &plScenario{Name: "drop:restart-partition", SrcN: 2, TgtN: 2, Colls: []*plColl{c},
+			Drivers: []plDriver{{Kind: "start", Coll: 0}, {Kind: "addpart", Coll: 0, Part: "p1", PartState: pb.PartitionState_PartitionDropped}}})
+		synth["drop:restart-partition"] = map[string]bool{"part/default/c1/p1": true}
+	}
+	return out, synth
+}
+
+func TestVerifC04Drop(t *testing.T) {
+	res := ev.New("C04", "drop")
+	defer res.Write()
+	bound := 2
+	if ev.Thorough() {
+		bound = 3
+	}
+	scs, synth := plDropScenarios(ev.Thorough())
+	res.Rule = "sched engine over the real channel manager and barriers: drop of a collection with 1..2 (3 thorough) shards where every shard's script ends with the drop message after differing amounts of data, drop of a partition on a 2-shard collection with partition registration racing the streams (and stream registration itself a scheduling point), stop without drop, stop racing a half-completed drop, restart with the collection / the partition already dropped upstream but present downstream (synthetic drop); all schedules within the deviation bound over delivery, driver start, pack.computed and barrier.signal points; oracle: exactly one drop request per dropped object with the right database / collection / partition / task / message timestamp, issued only after every shard delivered its drop message, none for stop, exactly one after restart; non-trivial = executions with interleaving inside the handler"
+	// the synthetic-drop expectation is per scenario
+	log.Info("warm up the logger outside the bubble")
+	sched.StartWatchdog(90 * time.Second)
+	e := sched.NewExplorer(t, bound)
+	e.Horizon = 12 * time.Second
+	e.MaxSteps = 600
+	e.Deadline = time.Now().Add(ev.Budget(150 * time.Second))
+	e.OnExec = func(sc *sched.Scenario, choices []int) { fmt.Printf("EXEC %s %v\n", sc.Name, choices) }
+	var wrapped []*sched.Scenario
+	for _, sc := range scs {
+		props := "14"
+		if strings.Contains(sc.Name, "stop") || strings.Contains(sc.Name, "restart") {
+			props = "4" // a stopped stream is cut short by design; a synthetic drop message was never read from the source
+		}
+		wrapped = append(wrapped, plWrap(sc, plCheck{props: props, synthetic: synth[sc.Name]}))
+	}
+	if p := os.Getenv("VERIF_REPLAY"); p != "" {
+		plReplay(t, res, e, wrapped, p)
+		return
+	}
+	shard, nshard := ev.Shard()
+	for i, sc := range wrapped {
+		e.Bound = bound
+		if scs[i].HeavyBound > 0 && scs[i].HeavyBound < bound {
+			e.Bound = scs[i].HeavyBound
+		}
+		e.Shard, e.NShard = shard, nshard
+		e.Explore(sc)
+	}
+	e.Bound = bound
+	plReport(res, e, "C04")
+	res.Bounds["scenarios"] = len(scs)
+}
